@@ -73,7 +73,9 @@ def generate(rng, n, tier):
         if cls == "clickhouse" and rng.random() < 0.5 and kind == "select":
             extra = ["limit_by", rng.choice([0, 1, 3]), rng.choice([0, 0, 2])]
         yield {"cls": cls, "kind": kind, "calls": calls, "orderby": rng.random() < 0.7,
-               "for_update": rng.random() < 0.3 and kind == "select", "extra": extra, "upd_shape": rng.randrange(4)}
+               "for_update": rng.random() < 0.3 and kind == "select", "extra": extra, "upd_shape": rng.randrange(4),
+               # the statement is then taken through replace_table on a table it does not mention: the same row window
+               "rt": kind == "select" and rng.random() < 0.25}
 
 
 def build_src(case, paginate=True):
@@ -110,7 +112,8 @@ def build_src(case, paginate=True):
             chain += (".limit_by(%d, T('t').b)" % ex[1]) if ex[2] == 0 else (".limit_offset_by(%d, %d, T('t').b)" % (ex[1], ex[2]))
     fu = ".for_update()" if case.get("for_update") else ""
     # call order of orderby / pagination / for_update must not matter: alternate
-    return s + tail + chain + fu
+    rt = ".replace_table(T('zz'), T('yy'))" if case.get("rt") else ""
+    return s + tail + chain + fu + rt
 
 
 def expected_state(case):
